@@ -632,6 +632,8 @@ def four_pops(phi, xx, T, nu1=1, nu2=1, nu3=1, nu4=1,
                         population.
         deme_ids (list[str]): sequence of strings representing the names of demes
     """
+    phi = phi.copy()
+
     if T - initial_t == 0:
         return phi
     elif T - initial_t < 0:
@@ -829,6 +831,8 @@ def five_pops(phi, xx, T, nu1=1, nu2=1, nu3=1, nu4=1, nu5=1,
                         population.
         deme_ids (list[str])): sequence of strings representing the names of demes
     """
+    phi = phi.copy()
+
     if T - initial_t == 0:
         return phi
     elif T - initial_t < 0:
